@@ -289,10 +289,18 @@ def run(r):
     resl = [leaf for g, leaf in leaves(lift_ite(strip_all(s.ret))) if head(strip(leaf)) != "raise"]
     okr = bool(resl) and all(l in code_tables or any(l == t for t in code_tables) for l in resl)
 
+    inputs = {("param", "df"), ("param", "df_old")}
+
     def fresh_copy(t):
         t = strip(t)
+        if head(t) == "ite":
+            return fresh_copy(t[2]) and fresh_copy(t[3])
         if head(t) == "call" and head(strip(t[1])) == "attr" and strip(t[1])[2] == "rename":
-            return fresh_copy(strip(t[1])[1]) and set(dict(t[3])) == {"columns"}
+            # rename(columns=...) returns a new frame: of a fresh copy or of the caller's table itself
+            base = strip(strip(t[1])[1])
+            from ..ssa import leaves as _lv
+            srcs = [strip(l) for _, l in _lv(lift_ite(strip_all(base)))]
+            return (fresh_copy(base) or all(x in inputs for x in srcs)) and set(dict(t[3])) <= {"columns", "copy"} and "inplace" not in dict(t[3])
         return head(t) == "call" and head(strip(t[1])) == "attr" and strip(t[1])[2] == "copy" and not t[2]
     rep.ob("C18-COLS", q, all(fresh_copy(l) for l in resl) and bool(resl), "the result is df.copy(), renamed by col_mapper when given (row count, order, index and other columns preserved)", where_of(r.P, s.func, s.func.node),
            expected="df.copy().rename(columns=col_mapper)", found="; ".join(show(l, 60) for l in resl[:2]), key="result table")
